@@ -10,9 +10,9 @@ let c03_kind_name (k : tkind) : string = c03_kind_names.(int_of_n (tkind_code k)
 
 let c03_show_item (i : item) : string =
   match i with
-  | Tok (k, d, n) -> "T:" ^ c03_kind_name k ^ ":" ^ hex_of_str d ^ ":" ^ string_of_int (int_of_n n)
-  | Err (ELex, d, n) -> "E:" ^ hex_of_str d ^ ":" ^ string_of_int (int_of_n n)
-  | Err (ELimit, _, n) -> "L:" ^ string_of_int (int_of_n n)
+  | ITok (k, d, n) -> "T:" ^ c03_kind_name k ^ ":" ^ hex_of_str d ^ ":" ^ string_of_int (int_of_n n)
+  | IErr (ELex, d, n) -> "E:" ^ hex_of_str d ^ ":" ^ string_of_int (int_of_n n)
+  | IErr (ELimit, _, n) -> "L:" ^ string_of_int (int_of_n n)
 
 let c03_show (l : item list) : string =
   if l = [] then "model-out-of-fuel" else String.concat " " (List.map c03_show_item l)
